@@ -35,6 +35,7 @@
 
 
 #include <xalanc/PlatformSupport/DOMStringHelper.hpp>
+#include <xalanc/PlatformSupport/DoubleSupport.hpp>
 #include <xalanc/PlatformSupport/XalanDecimalFormatSymbols.hpp>
 #include <xalanc/PlatformSupport/XalanMessageLoader.hpp>
 
@@ -163,6 +164,23 @@ ICUFormatNumberFunctor::doFormat(
         XalanDOMString&                     theResult,
         const XalanDecimalFormatSymbols*    theDFS) const
 {
+    if (DoubleSupport::isNaN(theNumber) == true)
+    {
+        // NaN is the only value for which the prefixes and
+        // suffixes of the pattern are not used...
+        if (theDFS != 0)
+        {
+            theResult = theDFS->getNaN();
+        }
+        else
+        {
+            const XalanDecimalFormatSymbols     theDefaultDFS(m_memoryManager);
+
+            theResult = theDefaultDFS.getNaN();
+        }
+
+        return true;
+    }
 
     if (theDFS == 0)
     {
